@@ -381,8 +381,10 @@ def corpus():
 class ProgGen:
     def __init__(self, rng, multi_phase=True, max_ops=8, arrays=True, calls=True, loops=True,
                  float_literals=False, targets=None, call_targets=None, inputs=None, control=True,
-                 scalar_loops=False):
+                 scalar_loops=False, pair_targets=None):
         self.rng = rng
+        # opt-in (C07): two-assignee calls over these pairs whose arguments read the assignees themselves
+        self.pair_targets = pair_targets
         self.multi_phase = multi_phase
         self.max_ops = max_ops
         self.arrays = arrays
@@ -449,6 +451,12 @@ class ProgGen:
                     defined[tgt] = "num"
             elif r < 0.55 and self.calls:
                 if rng.random() < 0.3:
+                    if self.pair_targets:
+                        x, y = rng.choice(self.pair_targets)
+                        args = [V(n) for n in (x, y) if defined.get(n) == "num"] if rng.random() < 0.6 else []
+                        ops.append(["assign_call", [x, y], "<func>h2", args or [g.num(0)], {}])
+                        defined[x] = defined[y] = "num"
+                        continue
                     ops.append(["assign_call", ["a", "b"], "<func>h2", [g.num(0)], {}])
                     defined["a"] = defined["b"] = "num"
                 else:
@@ -512,6 +520,34 @@ class ProgGen:
                 ops.append(STEP)
             phases.append({"name": n, "next": rng.choice(names), "ops": ops})
         return {"name": "rand%d" % idx, "phases": phases, "initial": names[0]}
+
+
+def rename_vars(prog, mapping):
+    """The same program with user variables renamed (deep copy)."""
+    def r(x):
+        if isinstance(x, list):
+            if len(x) == 2 and x[0] == "v" and isinstance(x[1], str):
+                return ["v", mapping.get(x[1], x[1])]
+            return [r(y) for y in x]
+        if isinstance(x, dict):
+            return {k: r(v) for k, v in x.items()}
+        return x
+
+    def rop(op):
+        k = op[0]
+        if k == "assign":
+            tgt = mapping.get(op[1], op[1]) if isinstance(op[1], str) else ["sub", mapping.get(op[1][1], op[1][1]), r(op[1][2])]
+            return ["assign", tgt, r(op[2]), [[i, r(lo), r(hi)] for i, lo, hi in op[3]]]
+        if k == "assign_call":
+            return ["assign_call", [mapping.get(a, a) for a in op[1]], op[2], r(op[3]), r(op[4])]
+        if k == "if":
+            return ["if", r(op[1]), [rop(o) for o in op[2]], None if op[3] is None else [rop(o) for o in op[3]]]
+        if k == "yield":
+            return ["yield", r(op[1]), op[2], r(op[3]), op[4]]
+        return list(op)
+    out = dict(prog)
+    out["phases"] = [dict(ph, ops=[rop(o) for o in ph["ops"]]) for ph in prog["phases"]]
+    return out
 
 
 def small_programs():
